@@ -58,12 +58,13 @@ type c01cmd struct {
 //	nothing may reach the device.
 type c01op struct {
 	kind     byte
-	ci       int   // index into cs.cmds (sends)
-	interim  []int // indices into facts.C01Interim ('I', or a batch sent with interim patterns)
-	stopAt   int   // the interim prompt the device stops at after this command's output; -1 = its prompt
-	implicit bool  // 'P' issued inside the library (network driver's privilege check): result not observed
-	nkind    int   // 'N': 0 nil slice, 1 empty slice, 2 empty file, 3 missing file
-	batch    int   // sends with the same id >= 0 go out in one SendCommands(FromFile) call
+	ci       int    // index into cs.cmds (sends)
+	interim  []int  // indices into facts.C01Interim ('I', or a batch sent with interim patterns)
+	stopAt   int    // the interim prompt the device stops at after this command's output; -1 = its prompt
+	implicit bool   // 'P' issued inside the library (network driver's privilege check): result not observed
+	nkind    int    // 'N': 0 nil slice, 1 empty slice, 2 empty file, 3 missing file
+	batch    int    // sends with the same id >= 0 go out in one SendCommands(FromFile) call
+	oseed    uint64 // draws the order of the call's option list and the foreign options in it
 }
 
 // API flavours of a session.
@@ -415,6 +416,22 @@ func c01check(c *ctx, cases []c01case) {
 				}
 				seen[k] = true
 			}
+		}
+		for _, op := range all {
+			if !c01isSend(op.kind) {
+				continue
+			}
+			l := c01optLayout(cs, op)
+			nf, chanAfterForeign, seenF := 0, false, false
+			for _, n := range l {
+				if c01optForeign(n) {
+					nf++
+					seenF = true
+				} else if seenF {
+					chanAfterForeign = true
+				}
+			}
+			res.Count(fmt.Sprintf("send option list: %d foreign, a channel option behind a foreign one:%v", nf, chanAfterForeign))
 		}
 		res.Count("api:" + c01apiNames[cs.api])
 		if c01apiNet(cs.api) {
